@@ -16,6 +16,12 @@ def run(tier):
         gen_pipeline.apply(chk, g, ["C02"])
     except ImportError:
         pass
+    try:
+        from checks import sb_pipeline
+        b = sb_pipeline.run(tier, chk.seed)
+        sb_pipeline.apply(chk, b, ["C02"])
+    except ImportError:
+        pass
     chk.assumptions = ["SHA-256 via JDK override"]
     chk.extra["exhaustive"] = False
     return chk.finish()
